@@ -34,6 +34,8 @@ P = {
                  "C16_conc_F1_pinned_refuted", "C16_conc_F2_pinned_refuted", "C16_conc_return_after_reload",
                  "C16_fine_is_atomic", "C16_fine_refines", "C16_fine_token_of_own_section", "C16_fine_nonvacuous",
                  "C16_fine_programs"],
+    # the guard numbers of stream histories are dead on /repo (both findings are repaired: the runner only maps OPEN findings, and the
+    # evaluator multiplies each guard by `negb (fx_Fi impl)`); they are only live with VERIF_C16_FIXED=0x / x0 on another checkout
     "streams": [{
         "name": "histories", "pkg": _PKG, "test": "TestVerifC16",
         "overlay": _OVERLAY, "eval_module": "Run.Eval_C16", "check_term": _CHECK,
@@ -65,7 +67,8 @@ P = {
             "duplicate; certificate chains none/self-signed/CA/CA+intermediate, with or without subject key id, flawed on the leaf (no "
             "digitalSignature usage, expired, not yet valid) or on the issuing side (expired CA / intermediate); block order keys-first/"
             "certs-first/interleaved; malformed: missing file, directory, unsupported block, bad DER, wrong password, no PEM at all, "
-            "truncated) x 2-8 operations: Execute for one of 2 subjects per run drawn from 11 ids (case, outer blanks, empty, "
+            "truncated; cut exactly at an entry boundary (loads, one entry less), white space only (an empty store: refused), trailing "
+            "white space / text between entries (load), text after the last entry (refused since 9709c71)) x 2-8 operations: Execute for one of 2 subjects per run drawn from 11 ids (case, outer blanks, empty, "
             "non-ASCII, quotes, tab) with varying outputs/attributes, 45% on the twin, 40% on a rule-level variant made by the real "
             "WithConfig (every subset of {ttl, claims}, empty, refused members, ttl <= 1s), 25% WITH RELOADS LANDING INSIDE Execute "
             "between its cache lookup and Sign (a hook cache performs them in Get; half of them followed by a roll-back) / replace "
@@ -124,7 +127,12 @@ P = {
         "interleavings of several Execute calls with reloads are the conc stream's and the C16_conc_* theorems' subject; the twin "
         "finalizer (a second signer over the same file) is not part of the concurrent machine",
     ],
-    "level_text": "Proof (kernel-checked, no axioms). For the model of key-store build, Entry.JWK, jwtSigner.load/Sign/Hash and "
+    "level_text": "Proof (kernel-checked, no axioms) ABOUT GALLINA MODELS — PROVED: the sequential histories model, the atomic-section "
+                  "machine for N Executes x M reloads, and the lock-operation machine for all section programs with progs_ok; CHECKED on "
+                  "every run by differential execution (model = real finalizer on generated histories and on forced schedules) and by "
+                  "re-extracting the lock skeleton and Execute's event skeleton; ASSUMED: cryptography, PEM/X.509, JSON/template "
+                  "rendering, the clock, RWMutex semantics, sequentially consistent memory, and the outer program of Execute as far as "
+                  "exec_shape does not pin it down (see the note). In detail: for the model of key-store build, Entry.JWK, jwtSigner.load/Sign/Hash and "
                   "jwtFinalizer.WithConfig/Execute — Execute as it is: cache-key section, cache lookup, any key-store reloads, Sign section, "
                   "cache store — and for ALL histories (any configuration incl. a twin finalizer with another signer name on the same cache "
                   "and other key holders, any initial file, any list of Execute-on-prototype/twin/rule-level-variant with any reloads "
@@ -139,9 +147,9 @@ P = {
                   "every interleaving, one call's reads see one load. CONCURRENT EXECUTES (C16_conc_*, machine at critical-section "
                   "granularity built from the same load/sign/key_of/cache functions; the sequential exec is its one-call case, "
                   "C16_conc_sequential_is_exec): for ANY number of Execute calls interleaved in ANY order with any reloads (accepted or "
-                  "rejected), JWKS reads and cache time — every returned token, fresh or reused, is exactly what Sign makes for that very "
-                  "request from the signer fields of a moment that is one of the call's own critical sections (its Hash section for a "
-                  "hit, its Sign section otherwise), hence signed with the key active at a moment between the call's start and end, "
+                  "rejected), JWKS reads and cache time — every returned token, fresh or reused, is what Sign makes for that very "
+                  "request (at some instant, with some jti: for a reused token those of the call that made it) from the signer fields of a "
+                  "moment that is one of the call's own critical sections (its Hash section or its Sign section), hence signed with the key active at a moment between the call's start and end, "
                   "naming its kid/alg, verifying against the key set published then and at every later moment up to the next successful "
                   "reload (C16_conc_token_of_own_section, by an invariant 'cache ⊆ log of tokens made, each filed under the key of the "
                   "state and call it was made under', C16_conc_invariant); a cache hit returns a token made under a state with the same "
@@ -170,7 +178,10 @@ P = {
                   "extracted lock skeleton (programs / progs_ok); "
                   "'verifies against the published set at the moment of return' holds only if no reload succeeded since the "
                   "call's own section (C16_conc_return_after_reload is the counter-example: nothing a lock in the signer could prevent); "
-                  "the reuse window starts at the cache store, time between a call's Sign section and its store is not counted by the "
+                  "the conc stream's property predicate (calls_prop) checks verification at the call's own step, the "
+                  "system claims and that some moment of the call's span names the active entry, but not the age of a reused token, so "
+                  "C16_conc_hit_within_window is tied to the code through the correspondence with the machine only (the histories "
+                  "stream's token_prop does check the age); the reuse window starts at the cache store, time between a call's Sign section and its store is not counted by the "
                   "code; the twin finalizer is not in the concurrent machine; forced schedules can only park a call at its cache "
                   "operations. "
                   "Findings C16-F1 (cached token survived a same-kid key change; fix d9caf75) and C16-F2 (token signed after a reload "
@@ -187,5 +198,6 @@ P = {
         "and one attribute, so the token cache key varies in (kid, alg, key, issuer, ttl, template, subject id, output, attribute)",
         "reloads are triggered by calling OnChanged directly after replacing the file (fsnotify delivery is not part of the check)",
         "the driver reads jwtSigner.Keys() slice identity to tell a successful reload from a failed one (OnChanged only logs)",
+        "Execute is always called with a non-nil subject (the `sub == nil` error path of Execute is not modelled and not exercised)",
     ],
 }
